@@ -42,7 +42,7 @@ import numpy as np
 from vlib.driver import run_driver
 
 TRIG_RTOL = 1e-12
-TRIG_KINDS = ("prismv", "pyrv", "segv", "ellv", "circ", "polyl")
+TRIG_KINDS = ("prismv", "pyrv", "segv", "ellv", "circ", "polyl", "arrowc", "arrowl", "pixels")
 
 
 def _bits(x):
@@ -65,6 +65,44 @@ def _rfloat(rng, allow_neg=False):
 
 def gen_trig(rng):
     """(case tuple, driver line)"""
+    if rng.random() < 0.22:
+        q = rng.random()
+        if q < 0.45:
+            # draw_arrow_on_circle, directly (any sign / angle) or through make_Circle (sign of the current, angle from style.arrow.offset)
+            d, size = _rfloat(rng), _rfloat(rng)
+            scaled = rng.random() < 0.6
+            if rng.random() < 0.5:
+                sign = rng.choice([1.0, -1.0, 0.0, 2.5, -0.3])
+                ang = rng.choice([0.0, 0.0, 90.0, 180.0, 45.0, -30.0, rng.uniform(-360.0, 360.0)])
+                return ("arrowc", "direct", sign, d, size, scaled, ang), f"disp arrowc {_bits(sign)} {_bits(d)} {_bits(size)} {int(scaled)} {_bits(ang)}"
+            cur = rng.choice([1.0, -1.0, 0.0, 3.5, -2.0, None])
+            off = rng.choice([0.0, 0.25, 0.5, rng.random()])
+            base = 72
+            ang = float(360 * np.round(off * base) / base)
+            sign = 0.0 if cur is None else float(np.sign(cur))
+            return ("arrowc", "circle", cur, d, size, scaled, off, ang), f"disp arrowc {_bits(sign)} {_bits(d)} {_bits(size)} {int(scaled)} {_bits(ang)}"
+        if q < 0.65:
+            sign = rng.choice([1.0, -1.0, 0.0, 4.0])
+            size, apos, L = _rfloat(rng), rng.choice([0.5, 0.5, 0.0, 1.0, rng.random()]), _rfloat(rng)
+            return ("arrowl", sign, size, apos, L), f"disp arrowl {_bits(sign)} {_bits(size)} {_bits(apos)} {_bits(L)}"
+        # sensor pixels
+        m = rng.choice([1, 1, 2, 3, 4, 6, 8])
+        sc = 10.0 ** rng.randint(-3, 1)
+        ps = [[rng.choice([0.0, float(rng.randint(-3, 3)), rng.uniform(-2, 2)]) * sc for _ in range(3)] for _ in range(m)]
+        if m > 1 and rng.random() < 0.3:
+            ps[-1] = list(ps[0])  # a repeated pixel (np.unique drops it)
+        if m == 1 and rng.random() < 0.3:
+            ps = [[0.0, 0.0, 0.0]]  # one pixel at the origin: min_dist == 0
+        scaled = rng.random() < 0.7
+        psize = rng.choice([1.0, 1.0, 0.5, 2.0, 0.0, rng.uniform(0.1, 3.0)])
+        uniq = np.unique(np.array(ps, dtype=float).reshape((-1, 3)), axis=0)  # what make_Sensor does first
+        if len(uniq) == 1:
+            hull = np.concatenate([[[0.0, 0.0, 0.0]], uniq])
+        else:
+            hull = uniq
+        dim_ext = float(max(np.mean(np.array([1.0] * 3)), np.min(hull.max(axis=0) - hull.min(axis=0))))  # default style.size = 1, autosize None
+        return (("pixels", ps, scaled, psize, dim_ext, uniq.tolist()),
+                "disp pixels %d %s %s %d %s" % (int(scaled), _bits(psize), _bits(dim_ext), len(uniq), " ".join(_bits(c) for p_ in uniq.tolist() for c in p_)))
     r = rng.random()
     if r < 0.24:
         N = rng.choice([1, 2, 3, 3, 4, 5, 6, 50, 50]) if rng.random() < 0.3 else rng.randint(3, 60)
@@ -133,6 +171,37 @@ def real_trig(magpy, tb, tc, c):
             t = tb.make_Ellipsoid("generic", dimension=np.array([a, b, cc]), vert=N)["kwargs"]
         except ValueError:
             return "err ValueError"
+    elif kind == "arrowc":
+        from magpylib._src.display.traces_utility import draw_arrow_on_circle
+
+        if c[1] == "direct":
+            _, _, sign, d, size, scaled, ang = c
+            v = draw_arrow_on_circle(sign, d, size, scaled=scaled, angle_pos_deg=ang)
+            return [np.asarray(v[:, k], dtype=float) for k in range(3)]
+        _, _, cur, d, size, scaled, off, ang = c
+        o = magpy.current.Circle(current=cur, diameter=d)
+        o.style.arrow.show, o.style.line.show = True, False
+        o.style.arrow.size, o.style.arrow.offset, o.style.arrow.sizemode = size, off, ("scaled" if scaled else "absolute")
+        (t,) = tc.make_Circle(o, base=72)
+    elif kind == "arrowl":
+        from magpylib._src.display.traces_utility import draw_arrowed_line
+
+        _, sign, size, apos, L = c
+        v = draw_arrowed_line((0.0, L, 0.0), (0.0, 0.0, 0.0), sign=sign, arrow_size=size, arrow_pos=apos)  # along +y: no rotation, the template itself
+        return [np.asarray(v[:, k], dtype=float) for k in range(3)]
+    elif kind == "pixels":
+        from magpylib._src.display.sensor_mesh import get_sensor_mesh
+
+        _, ps, scaled, psize, dim_ext, uniq = c
+        o = magpy.Sensor(pixel=ps)
+        o.style.pixel.size, o.style.pixel.sizemode, o.style.pixel.color = psize, ("scaled" if scaled else "absolute"), "red"
+        o.style.size, o.style.sizemode = 1.0, "scaled"  # the object's own leaves are None until show() resolves them: the defaults, spelled out
+        t = tc.make_Sensor(o, autosize=None)
+        n0 = len(get_sensor_mesh()["x"])
+        npx = 8 * len(uniq) if psize > 0 else 0
+        if len(t["x"]) != n0 + npx + 8:
+            return f"err vertex count {len(t['x'])} != {n0} + {npx} + 8"
+        return [np.asarray(t[k], dtype=float).reshape(-1)[n0:n0 + npx] for k in "xyz"]
     elif kind == "circ":
         _, base, d = c
         o = magpy.current.Circle(current=1.0, diameter=d)
@@ -148,8 +217,8 @@ def real_trig(magpy, tb, tc, c):
     return [np.asarray(t[k], dtype=float).reshape(-1) for k in "xyz"]
 
 
-def compare_trig(kind, real, mo, stats):
-    """None when equal (lengths / order exact, values to TRIG_RTOL; polyl bit-exact), else a description"""
+def compare_trig(kind, real, mo, stats, scale=0.0):
+    """None when equal (lengths / order exact, values to TRIG_RTOL relative to max(|a|, |b|, scale); polyl bit-exact), else a description"""
     if isinstance(real, str):
         return None if real == mo.strip() else "error kinds differ"
     if not mo.startswith("ok"):
@@ -169,7 +238,7 @@ def compare_trig(kind, real, mo, stats):
             stats["trig_values"] += 1
             if a != a or b != b or kind == "polyl":
                 return f"{name}[{idx}]: model {b!r} real {a!r}"
-            dev = abs(a - b) / max(abs(a), abs(b))
+            dev = abs(a - b) / max(abs(a), abs(b), scale)
             stats["trig_max_rel_dev"] = max(stats["trig_max_rel_dev"], dev)
             if dev > TRIG_RTOL:
                 return f"{name}[{idx}]: model {b!r} real {a!r} rel {dev:.3g}"
@@ -1026,7 +1095,7 @@ def run_stream(ctx, n):
     stats = {"cases": n, "inds": 0, "inds_errors": 0, "inds_negative_returned": 0, "inds_row_drawn_twice": 0, "inds_last_row_missing": 0,
              "cuboid": 0, "tetra": 0, "tetra_swapped": 0, "prism": 0, "pyramid": 0, "disagreements": 0, "distinct": 0,
              "prismv": 0, "pyrv": 0, "segv": 0, "segv_r1_zero": 0, "segv_full_360": 0, "segv_zero_span": 0, "segv_reversed": 0, "segv_beyond_360": 0,
-             "segv_negative": 0, "ellv": 0, "ellv_errors": 0, "circ": 0, "polyl": 0, "trig_values": 0, "trig_bit_exact": 0, "trig_max_rel_dev": 0.0,
+             "segv_negative": 0, "ellv": 0, "ellv_errors": 0, "circ": 0, "polyl": 0, "arrowc": 0, "arrowl": 0, "pixels": 0, "trig_values": 0, "trig_bit_exact": 0, "trig_max_rel_dev": 0.0,
              "trig_rtol": TRIG_RTOL}
     seen, samples = set(), []
     objs = {}
@@ -1038,7 +1107,9 @@ def run_stream(ctx, n):
             if kind in TRIG_KINDS:
                 try:
                     real = real_trig(magpy, tb, tc, c)
-                    why = compare_trig(kind, real, mo, stats)
+                    # the rotated arrow head has components that cancel to ~0: compared relative to the size of the drawn thing
+                    scale = abs(c[3]) * (1 + abs(c[4])) if kind == "arrowc" else 0.0
+                    why = compare_trig(kind, real, mo, stats, scale)
                 except Exception as e:
                     real, why = None, f"harness: {type(e).__name__}: {e}"
                 if kind == "segv":
